@@ -3,7 +3,7 @@
    pre = false -> Err and pre = true -> Ok tt; where the code is weaker: the full statement is refuted by a
    witness and the partial statement is proved.  Only statements, `exact`, Print Assumptions. *)
 From Coq Require Import List ZArith Bool.
-From PV Require Import Np.NpZ Gen.GenUtils Model.C19Guards Proofs.C19Proofs.
+From PV Require Import Np.NpZ Gen.GenUtils Model.C19Guards Proofs.C19Proofs Proofs.C19Ttv.
 Import ListNotations.
 Local Open Scope Z_scope.
 
@@ -166,3 +166,9 @@ Proof. exact tensor_ttm_rejects_count. Qed.
 Print Assumptions C19_tensor_ttm_rejects_count.
 Example C19_tensor_ttv_ex : guard_tensor_ttv [2; 3; 4] [4; 2] (Some [2; 0]) None = Ok tt /\ guard_tensor_ttv [2; 3; 4] [2; 4] (Some [2; 0]) None = Err.
 Proof. split; reflexivity. Qed.
+
+(* tt_dimscheck has no upper bound on dims; ttv still rejects them (Python's index check on self.shape[dims[i]]) *)
+Theorem C19_tensor_ttv_rejects_out_of_range : forall s vlens d x,
+  In x d -> ndim s <= x -> guard_tensor_ttv s vlens (Some d) None = Err.
+Proof. exact tensor_ttv_rejects_out_of_range. Qed.
+Print Assumptions C19_tensor_ttv_rejects_out_of_range.
